@@ -330,7 +330,9 @@ def code_obligations(rep, tier):
         for suffix, smt2, ok, text, meta in items:
             m = dict(meta0, **meta)
             if smt2 is not None:
-                rep.add(core.smt(base + "/" + suffix, PROP, smt2, functions=fn, text=text, budget_s=m.get("budget_s", 120), meta=m, kind=m.get("kind", "vc"), claimed=m.get("claimed", True)))
+                # float64 (thorough tier only) and sizes above 4 have no solver head-room on a loaded machine: attempted, not claimed
+                heavy = cfg["t"] is numpy.float64 or cfg["size"] > 4
+                rep.add(core.smt(base + "/" + suffix, PROP, smt2, functions=fn, text=text, budget_s=m.get("budget_s", 120), meta=m, kind=m.get("kind", "vc"), claimed=m.get("claimed", True) and not heavy))
             else:
                 rep.add(core.decided(base + "/" + suffix, PROP, ok, functions=fn, text=text, meta=m))
 
@@ -559,7 +561,7 @@ def build(tier):
         "diff_ulp at the zero-straddling split is replaced by its contract |rank(x)-rank(y)| (discharged under C14)",
         "bounds: finite, non-NaN, min_value < max_value; requested sizes 1..4 (quick) / 1..6 (thorough) for layer B - a stated bound; layer A is unbounded in num",
     )
-    rep.bounded.append(dict(what="layer B runs the real real_samples with a concrete requested size", bound="size in 1..4 (quick), 1..6 (thorough); float16/float32 (quick) + float64 (thorough); values of the bounds are universally quantified", counted_as_proved=False if False else "per-size obligations are proofs for that size; sizes beyond the bound rest on layer A + the size-independent structure of the code, which is NOT mechanically connected"))
+    rep.bounded.append(dict(what="layer B runs the real real_samples with a concrete requested size", bound="size in 1..4 at float16/float32 claimed; sizes 5..6 and float64 (thorough tier) attempted, not claimed; values of the bounds are universally quantified", counted_as_proved=False if False else "per-size obligations are proofs for that size; sizes beyond the bound rest on layer A + the size-independent structure of the code, which is NOT mechanically connected"))
     rep.extraction_drops.append("layer A: only the comprehension `elt for i in range(...)` is extracted (by AST) - everything around it is covered by layer B for small sizes; Cartesian-product generators (complex/pair/triple samples) and the default-bounds special values (infinities, huge, nan) are not under contract")
     rep.under_contract("utils.real_samples", ["kernel: length, endpoints, spacing, monotonicity (all num >= 2)", "user bounds: returns without error, contains bounds, within bounds, non-decreasing before unique, no NaN/subnormal unless requested, equal same-sign spacing up to 1 ULP"])
     kernel_obligations(rep)
